@@ -223,16 +223,21 @@ def label_mode(label):
     return "tolerance"
 
 
+def _fl(v):
+    return v if v in (None, "nan") else float(frac(v))
+
+
 def features_diff(where, impl, model):
     """metric lists are compared as multisets of (label, value)"""
+    lvl = where.split(" ")[0] if not where.startswith("clip") else ("match" if "match" in where else "clip")
     if sorted(l for l, _ in impl) != sorted(l for l, _ in model):
-        return f"{where}: metric labels {sorted(l for l, _ in impl)} != {sorted(l for l, _ in model)}"
+        return (f"{lvl} metrics carry the wrong terms: {sorted(l for l, _ in impl)} instead of "
+                f"{sorted(l for l, _ in model)} ({where})")
     ia = sorted(impl, key=lambda p: p[0])
     ma = sorted(model, key=lambda p: p[0])
-    # with duplicate labels the pairing is ambiguous: try the sorted-by-value pairing per label
     for (l, v), (_l2, w) in zip(ia, ma):
         if not num_eq(v, w, label_mode(l)):
-            return f"{where}: {l} = {None if v is None else float(frac(v)) if v != 'nan' else 'nan'} but the metric it names is {float(frac(w))}"
+            return f"{lvl} metric {l} is not the metric its term names: {_fl(v)} instead of {_fl(w)} ({where})"
     return None
 
 
@@ -240,38 +245,39 @@ def match_key(m):
     return (-1 if m["src"] is None else m["src"], -1 if m["tgt"] is None else m["tgt"])
 
 
-def evaluation_diff(impl, model, score_mode="round-once", clip_score_mode="round-once", clip_order=True):
+def evaluation_diff(impl, model, score_mode="round-once", clip_score_mode="round-once", clip_order=True,
+                    affinity=True):
     """None when the two canonical evaluations agree on everything C08/C09 pin"""
     d = features_diff("evaluation", impl["metrics"], model["metrics"])
     if d:
         return d
     if not num_eq(impl["score"], model["score"], score_mode):
-        return f"evaluation score {float(frac(impl['score'])) if impl['score'] not in (None, 'nan') else impl['score']} is not the mean of the clip scores {float(frac(model['score']))}"
+        return f"evaluation score is not the mean of the clip scores: {_fl(impl['score'])} instead of {_fl(model['score'])}"
     ic, mc = impl["clips"], model["clips"]
     if not clip_order:
         ic = sorted(ic, key=lambda c: c["clip"])
         mc = sorted(mc, key=lambda c: c["clip"])
     if [c["clip"] for c in ic] != [c["clip"] for c in mc]:
-        return f"evaluated clips {[c['clip'] for c in ic]} != {[c['clip'] for c in mc]}"
+        return f"evaluated clips are not the predicted clips that are annotated: {[c['clip'] for c in ic]} instead of {[c['clip'] for c in mc]}"
     for a, b in zip(ic, mc):
         w = f"clip {a['clip']}"
         if a.get("pclip", a["clip"]) != a["clip"]:
-            return f"{w}: annotations and predictions of different clips"
+            return f"clip evaluation pairs annotations and predictions of different clips ({w})"
         d = features_diff(w, a["metrics"], b["metrics"])
         if d:
             return d
         if not num_eq(a["score"], b["score"], clip_score_mode):
-            return f"{w}: score {a['score']} != {b['score']}"
+            return f"clip score is not the mean of its match scores / the item's score: {_fl(a['score'])} instead of {_fl(b['score'])} ({w})"
         am = sorted(a["matches"], key=match_key)
         bm = sorted(b["matches"], key=match_key)
         if [match_key(m) for m in am] != [match_key(m) for m in bm]:
-            return f"{w}: matches {[match_key(m) for m in am]} != {[match_key(m) for m in bm]}"
+            return f"matches do not pair the sound events as expected: {[match_key(m) for m in am]} instead of {[match_key(m) for m in bm]} ({w})"
         for x, y in zip(am, bm):
             wm = f"{w} match {match_key(x)}"
-            if not num_eq(x["affinity"], y["affinity"], "exact"):
-                return f"{wm}: affinity {x['affinity']} != {y['affinity']}"
+            if affinity and not num_eq(x["affinity"], y["affinity"], "exact"):
+                return f"match affinity is not the one the matcher reported: {_fl(x['affinity'])} instead of {_fl(y['affinity'])} ({wm})"
             if not num_eq(x["score"], y["score"], "exact"):
-                return f"{wm}: score {x['score']} != {y['score']}"
+                return f"match score is not the probability of the true class: {_fl(x['score'])} instead of {_fl(y['score'])} ({wm})"
             d = features_diff(wm, x["metrics"], y["metrics"])
             if d:
                 return d
